@@ -231,7 +231,7 @@ fn vec_vec_oversize() {
     kani::cover!(declared == u64::MAX);
 }
 
-//@ harness: vec_txout_oversize class=F tier=quick props=C01
+//@ harness: vec_txout_oversize class=F tier=thorough props=C01 timeout=1800
 //@ clause: Vec<TxOut> decode: every declared element count n with n * size_of::<TxOut>() > 4_000_000 is rejected before allocation
 #[kani::proof]
 #[kani::unwind(2)] // as above
@@ -254,7 +254,7 @@ fn vec_txout_oversize() {
     kani::cover!(declared == 4_000_000 / SZ + 1);
 }
 
-//@ harness: vec_u8_strict class=F tier=quick bound="declared length 1" props=C01
+//@ harness: vec_u8_strict class=F tier=thorough bound="declared length 1" props=C01 timeout=3000
 //@ clause: deserialize::<Vec<u8>>(b) is Ok iff deserialize_partial(b) is Ok and consumed everything; leftover bytes give ParseFailed("data not consumed entirely when explicitly deserializing")
 #[kani::proof]
 fn vec_u8_strict() {
